@@ -393,6 +393,8 @@ def run_replays(prop_id):
 def main(prop_id, tier, seed):
     t0 = time.time()
     prop_id = prop_id.upper()
+    import shutil
+    shutil.rmtree(os.path.join(ROOT, "replays", "new", prop_id), ignore_errors=True)
     ctx = multiprocessing.get_context("fork")
     tasks = [(prop_id, tier, seed, s, NSHARDS) for s in range(NSHARDS)]
     timeout = int(os.environ.get("VERIF_TIMEOUT", "1500" if tier == "quick" else "14000"))
